@@ -106,7 +106,8 @@ def make_plan(i, master, tier):
     fr = kernel.stream(seed, 'faults')
     procs = {'atc': {'exit': 0, 'stdout': 'o\n'}}
     ops = gen_ops(g, procs)
-    case = {'conf': [], 'setup': [{'k': 'real', 'text': 'dir -rel-act d1/d2'}, {'k': 'real', 'text': 'dir -rel-tmp t1'}],
+    case = {'conf': [], 'setup': [{'k': 'real', 'text': 'def path HERE = marker.txt'},
+                                  {'k': 'real', 'text': 'dir -rel-act d1/d2'}, {'k': 'real', 'text': 'dir -rel-tmp t1'}],
             'before-assert': [], 'assert': [], 'cleanup': [], 'act': {'lines': ['% atc']}}
     n = [0]
 
@@ -114,7 +115,9 @@ def make_plan(i, master, tier):
         n[0] += 1
         ident = 'p%d' % n[0]
         procs[ident] = {'exit': 0}
-        return {'k': 'probe', 'id': ident, 'form': g.choice(['%', '%', 'run', '$'])}
+        # every probe is handed a path symbol whose relativity is the current directory (the default): the path it
+        # denotes is the one under the directory that is current at THAT use
+        return {'k': 'probe', 'id': ident, 'form': g.choice(['%', '%', 'run', '$']), 'args': '@[HERE]@'}
 
     def stub(ph):
         n[0] += 1
@@ -231,8 +234,13 @@ def summarize(plan, sim, w, res, text, leftover, digest):
         if t['step'] in ('main', 'execute'):
             view = t['extra'] if isinstance(t['extra'], dict) else None
             events.append({'seq': t['seq'], 'kind': t['step'], 'id': t['id'], 'cwd': rel(t['cwd']), 'view': view})
+    def second_word(a):
+        words = a.split() if isinstance(a, str) else list(a)
+        return rel(words[1]) if len(words) > 1 else None
+
     for s in sim.spawns:
         events.append({'seq': s['seq'], 'kind': 'spawn', 'id': s['tag'], 'cwd': rel(s['cwd']), 'env': dict(s['env']),
+                       'arg': second_word(s['args']),
                        'waits': list(s['waits']), 'killed': s['killed'], 'exit': s['exit'],
                        'error': s.get('spawn_error'), 't_spawn': s['t_spawn'], 't_kill': s.get('t_kill'),
                        't_end': s.get('t_end'), 'reaped': s['reaped'], 'n': s['n']})
@@ -321,6 +329,9 @@ def oracle(plan, hist):
             seen.add(ident)
             if e['cwd'] != x['cwd']:
                 bad('cwd.persists_forward_and_not_backward', {'id': ident, 'cwd': x['cwd']}, e['cwd'])
+            if ident.startswith('p') and e.get('arg') is not None and e['arg'] != x['cwd'] + '/marker.txt':
+                bad('cwd.path_relative_to_the_current_directory_follows_cd', {'id': ident, 'path': x['cwd'] + '/marker.txt'},
+                    e['arg'])
             if e['env'] != x['env']:
                 rule = 'environ.atc_sees_act_set' if ident == 'atc' else 'environ.other_processes_see_non_act_set'
                 bad(rule, {'id': ident, 'env': _d(x['env'])}, _d(e['env']))
@@ -470,7 +481,7 @@ def normalize(plan):
         return None
     # value programs must keep their behaviour; the two directory-creating lines must stay
     texts = [it.get('text') for it in plan['case']['setup']]
-    if 'dir -rel-act d1/d2' not in texts or 'dir -rel-tmp t1' not in texts:
+    if 'dir -rel-act d1/d2' not in texts or 'dir -rel-tmp t1' not in texts or 'def path HERE = marker.txt' not in texts:
         return None
     model = S.Settings(world_mod.FIXED_ENVIRON)
     for ph in PHASES:
